@@ -30,7 +30,7 @@ EXHAUSTIVE = {
                      ("E5", cfgc(Nodes={1, 2, 3}, CNodes={1, 2, 3}, F=2, Times={0, 1}, MaxSkew=1, MaxExch=2)),  # three nodes, two of them issue
                      ("E6", cfgc(MaxDup=1, MaxExch=3)),                               # duplicated deliveries
                      ("E7", cfgc(WithTracker=True, MaxExch=6)),                       # the poller's keyspace tracker skips unchanged peers
-                     ("E8", cfgc(WithTracker=True, WithRestart=True, MaxExch=3))],
+                     ("E8", cfgc(WithTracker=True, WithRestart=True, MaxExch=2))],
     },
     "C05": {   # nothing is replicated directly: every difference is repaired by exchanges
         "quick": [("X1", cfgc(NoDirect=True, WithBulk=True, MaxOps=2, MaxExch=4))],
